@@ -7,6 +7,6 @@ PROPS = {
     'C14': dict(
         micro=['token', 'bloomlog', 'tokencache'],
         modelled="token.rs (Token::encode/decode payload coding for Retry and Validation payloads, IncomingToken::from_header) with the AEAD ideal by hypothesis; bloom_token_log.rs BloomTokenLog::check_and_insert (period/turn-over exact, filter = exact set + mode, bloom false positives and HashSet-capacity conversion as observed choices); token_memory_cache.rs TokenMemoryCache store/take (LruSlab as MRU list)",
-        not_modelled="AEAD/HKDF internals (real ring AES-256-GCM in the executor, ideal in the model); NoneTokenLog/custom TokenLog other than the three log kinds driven; Endpoint::retry / handle_first_packet glue, Retry integrity tag and CID-echo checks on the client (DESIGN 5.14 second half: system simulator); pre-epoch issue times; optimal_k_num (f64)",
+        not_modelled="AEAD/HKDF internals (real ring AES-256-GCM in the executor, ideal in the model); NoneTokenLog/custom TokenLog other than the three log kinds driven; Endpoint::retry / handle_first_packet glue executed end to end (the CID plumbing of accept/retry/from_header is tied by the T1 shape anchors of Gen/CidEcho; client Retry test and CID echo: component cidecho, Props/C14_echo); pre-epoch issue times; optimal_k_num (f64)",
     ),
 }
